@@ -34,6 +34,8 @@ var Vocab = []string{
 	// misc
 	"xz", "qq", "foo", "bar", "baz", "disk", "usage", "qm", "x1", "7z", "log", "text", "windows", "manage",
 	"status", "all", "size", "name", "pipe", "json", "k8s",
+	// capitalised stop / action words as they appear in real descriptions ("Get disk usage", "The ...")
+	"The", "Get", "How", "To", "Find", "List",
 }
 
 // UnicodePool holds non-ASCII words and separators used where Unicode is in scope.
@@ -132,6 +134,7 @@ type CmdOpts struct {
 	Irregular bool // allow case-irregular runes
 	Platforms bool // draw platform tags
 	NoPipe    bool // never set the pipeline flag / pipe text
+	NoBlank   bool // never generate a blank command line
 }
 
 // Command draws one command entry.
@@ -146,6 +149,9 @@ func Command(o CmdOpts) *rapid.Generator[database.Command] {
 			Description: TextOf(w, 0, 10).Draw(t, "desc"),
 			Keywords:    rapid.SliceOfN(TextOf(w, 1, 2), 0, 4).Draw(t, "kw"),
 			Tags:        rapid.SliceOfN(w, 0, 2).Draw(t, "tags"),
+		}
+		if !o.NoBlank && rapid.IntRange(0, 23).Draw(t, "blank-cmd") == 0 {
+			c.Command = rapid.SampledFrom([]string{"", " ", "  "}).Draw(t, "blank") // well-formed but blank command line
 		}
 		if rapid.IntRange(0, 3).Draw(t, "niche?") == 0 {
 			c.Niche = rapid.SampledFrom([]string{"git", "docker", "system", "network", "Files"}).Draw(t, "niche")
@@ -174,7 +180,7 @@ func DB(t *rapid.T, o CmdOpts, classes []int) ([]database.Command, DBClass) {
 	if classes == nil {
 		classes = []int{1, 2, 6, 9, 1}
 	}
-	names := []DBClass{"empty", "one", "tie", "small", "medium"}
+	names := []DBClass{"empty", "one", "tie", "small", "medium", "large"}
 	total := 0
 	for _, w := range classes {
 		total += w
@@ -215,8 +221,11 @@ func DB(t *rapid.T, o CmdOpts, classes []int) ([]database.Command, DBClass) {
 	case "small":
 		return rapid.SliceOfN(Command(o), 2, 30).Draw(t, "small"), cls
 	default:
-		// medium: 100..400 entries built combinatorially from a few drawn parts
+		// medium: 100..400 entries built combinatorially from a few drawn parts; large: 550..1200
 		n := rapid.IntRange(100, 400).Draw(t, "medium-n")
+		if cls == "large" {
+			n = rapid.IntRange(550, 1200).Draw(t, "large-n")
+		}
 		parts := rapid.SliceOfN(Word(), 6, 12).Draw(t, "medium-parts")
 		out := make([]database.Command, n)
 		for i := range out {
